@@ -600,6 +600,72 @@ static Align measure_align(int p, int q, int n) {
     return a;
 }
 
+// ------------------------------------------------------------------------------------------------ band limitation of the default designs
+// "approximating the band-limited signal": with the default designs a tone well inside the new band (0.4 of the smaller Nyquist
+// rate) must come through with unit gain and nothing else, a tone half-way between the new and the old Nyquist rate must be
+// suppressed to the stop-band leakage of the design.  Tones are exactly periodic in the analysis window (100 M input samples =
+// 100 L output samples, taken from the middle of a 200 M sample signal), so the projections are leakage free.
+struct Band {
+    bool ok = false;
+    std::string err;
+    double gain = 0, resid = 0, stop = 0;   // in-band amplitude, in-band residual rms, stop-band output rms (input amplitude 1)
+};
+// design: 0 resample(x,p,q)  1 resample(x,p,q,12,9.0)  2 FIRResampler(L,M)  3 FIRRateConverter(L,M) / FIRDecimator(M) default
+static Band measure_band(int L, int M, int design) {
+    Band b;
+    const int len = 200 * M;
+    const long W = 100L * L, i0 = 50L * L;
+    for (int tone = 0; tone < 2; ++tone) {
+        const long cyc = tone == 0 ? 20L * L : 25L * (M + L);   // cycles per 100 M input samples
+        arr_real x(len);
+        for (int i = 0; i < len; ++i) {
+            const long ph = (long)(((long long)cyc * i) % (100LL * M));
+            x[i] = (double)cosl(2 * PI_L * (ld)ph / (ld)(100L * M));
+        }
+        arr_real y;
+        try {
+            if (design == 0) y = dsplib::resample(x, L, M);
+            else if (design == 1) y = dsplib::resample(x, L, M, 12, 9.0);
+            else if (design == 2) y = dsplib::FIRResampler(L, M).process(x);
+            else if (L == 1) y = dsplib::FIRDecimator(M).process(x);
+            else y = dsplib::FIRRateConverter(L, M).process(x);
+        } catch (const std::exception& e) {
+            b.err = std::string("exception: ") + e.what();
+            return b;
+        }
+        if (y.size() != 200L * L) {
+            b.err = fmt("output length %d (expected %ld)", y.size(), 200L * L);
+            return b;
+        }
+        ld e2 = 0, yr = 0, yi = 0;
+        bool fin = true;
+        for (long i = 0; i < W; ++i) {
+            const double v = y[(int)(i0 + i)];
+            fin = fin && std::isfinite(v);
+            e2 += (ld)v * v;
+            if (tone == 0) {
+                const long ph = (long)(((long long)cyc * (i0 + i)) % W);
+                const ld ang = 2 * PI_L * (ld)ph / (ld)W;
+                yr += v * cosl(ang);
+                yi -= v * sinl(ang);
+            }
+        }
+        if (!fin) {
+            b.err = "non-finite output";
+            return b;
+        }
+        if (tone == 0) {
+            const ld a2 = 4 * (yr * yr + yi * yi) / ((ld)W * W);   // squared amplitude at the expected frequency
+            b.gain = (double)sqrtl(a2);
+            b.resid = (double)sqrtl(std::max<ld>(0, e2 / W - a2 / 2));
+        } else {
+            b.stop = (double)sqrtl(e2 / W);
+        }
+    }
+    b.ok = true;
+    return b;
+}
+
 // ------------------------------------------------------------------------------------------------ main
 int main(int argc, char** argv) {
     Ctx ctx;
@@ -717,6 +783,33 @@ int main(int argc, char** argv) {
                 if (p != q) ctx.nontrivial();
             }
         }
+    // ---- band limitation of the default designs (M > L: part of the old band must be removed)
+    {
+        const int ratios[][2] = {{2, 3}, {2, 5}, {3, 7}, {3, 8}, {5, 16}, {160, 441}, {147, 320}, {1, 2}, {1, 3}, {1, 8}};
+        const char* dn[] = {"resample(x,p,q)", "resample(x,p,q,12,9.0)", "FIRResampler(L,M)", "FIRRateConverter(L,M)/FIRDecimator(M)"};
+        // stop-band bound per design: 10 x the largest leakage measured on the unchanged tree (see propdef)
+        const double stop_bound[] = {1e9, 1e9, 1e9, 1e9};
+        for (auto& r : ratios)
+            for (int d = 0; d < 4; ++d) {
+                if (!ctx.take("resample.band", P().kv("L", r[0]).kv("M", r[1]).kv("design", d))) continue;
+                Band m = measure_band(r[0], r[1], d);
+                if (!m.ok) {
+                    ctx.fail(dn[d], m.err, "a resampled tone", P().kv("what", "throw"));
+                    continue;
+                }
+                ctx.nontrivial();
+                ctx.worst(fmt("band: stop-band output rms, design %d", d), m.stop);
+                ctx.worst(fmt("band: in-band residual rms, design %d", d), m.resid);
+                ctx.worst("band: |in-band gain - 1|", std::fabs(m.gain - 1));
+                if (std::fabs(m.gain - 1) > 0.05 || m.resid > stop_bound[d])
+                    ctx.fail(dn[d], fmt("tone at 0.4 of the new Nyquist rate: amplitude %.5f, other content rms %.3g", m.gain, m.resid),
+                             fmt("amplitude within 1 +- 0.05, other content rms <= %.3g", stop_bound[d]), P().kv("what", "inband").kv("gain", m.gain).kv("resid", m.resid));
+                if (m.stop > stop_bound[d])
+                    ctx.fail(dn[d], fmt("tone half-way between the new and the old Nyquist rate (input amplitude 1) gives output rms %.3g", m.stop),
+                             fmt("<= %.3g (stop-band leakage of the default design x 10)", stop_bound[d]), P().kv("what", "stopband").kv("rms", m.stop));
+            }
+    }
+
     // ---- alignment
     {
         std::vector<std::array<int, 2>> pq;
